@@ -8,7 +8,7 @@ func init() {
 	Runners["C16"] = fileRunnerEnum(func(p *harness.Program) Result { return RunC16(p, false) })
 	harness.Specs["C16"] = &harness.PropSpec{
 		ID: "C16", Test: "TestC16", Kind: "file", Level: "fault_enumeration", FuzzTargets: []string{"FuzzC16"}, FuzzSeconds: 180,
-		Quick: 480, Thorough: 20000,
+		Quick: 480, Thorough: 1800,
 		Rule: "evaluations = generated histories; after a chosen successful commit of each history (both header slots describe intact states there) the disk " +
 			"image is copied and one header page is damaged: single bit flips of the 84 header bytes (all 672 per slot in thorough, sampled in quick), byte-prefix " +
 			"tears (zero / other slot's bytes / garbage), zeroed page, random multi-byte damage; both headers damaged; txid pairs around 2^63/2^64 re-signed with the " +
